@@ -105,6 +105,37 @@ var c05Shapes = []c05Shape{
 	}},
 	{"alias", func(*c05Ctx) engine.Term { return atom("user_input") }},
 	{"aliaso", func(*c05Ctx) engine.Term { return atom("user_output") }},
+	// values that let the argument checks of specific predicates pass, so that the code behind them runs
+	{"atom2", func(*c05Ctx) engine.Term { return atom("foo") }},
+	{"kwread", func(*c05Ctx) engine.Term { return atom("read") }},
+	{"kwwrite", func(*c05Ctx) engine.Term { return atom("write") }},
+	{"flag", func(*c05Ctx) engine.Term { return atom("double_quotes") }},
+	{"pi", func(*c05Ctx) engine.Term { return compound("/", atom("foo"), engine.Integer(1)) }},
+	{"pairs", func(*c05Ctx) engine.Term {
+		return engine.List(compound("-", atom("b"), engine.Integer(2)), compound("-", atom("a"), engine.Integer(1)))
+	}},
+	{"optq", func(*c05Ctx) engine.Term { return engine.List(compound("quoted", atom("true"))) }},
+	{"optt", func(*c05Ctx) engine.Term { return engine.List(compound("type", atom("binary"))) }},
+	{"optvn", func(*c05Ctx) engine.Term {
+		return engine.List(compound("variable_names", engine.List(compound("=", atom("X"), engine.NewVariable()))))
+	}},
+	{"bigcode", func(*c05Ctx) engine.Term { return engine.Integer(1114112) }},
+	// (sizes kept small: the writer and acyclic_term/1 scan a `visited` list per node, i.e. they are quadratic in
+	// the nesting depth — 20000 levels take ~17 s to write; slow, but the property does not bound time)
+	{"deep", func(*c05Ctx) engine.Term { // f(f(…f(a)…)), 1500 deep
+		var t engine.Term = atom("a")
+		for k := 0; k < 1500; k++ {
+			t = compound("f", t)
+		}
+		return t
+	}},
+	{"long", func(*c05Ctx) engine.Term { // [0,1,…,1499]
+		es := make([]engine.Term, 1500)
+		for k := range es {
+			es[k] = engine.Integer(k)
+		}
+		return engine.List(es...)
+	}},
 }
 
 var c05ShapeIdx = func() map[string]int {
@@ -194,10 +225,20 @@ func isPrime(n int) bool {
 	return true
 }
 
-func genC05Matrix(r *rand.Rand, n int, tier string) []string {
-	v := len(c05Shapes)
-	out := []string{"procs"}
-	var small, big []string
+// the core shapes: the quick tier runs the complete matrix over these (and a sample of the rest)
+var c05Core = []string{"var", "atom", "nil", "int1", "int0", "huge", "neg", "minint", "maxint", "float", "cmp", "ncall",
+	"list", "plist", "imlist", "chars", "appo", "sin", "closed"}
+
+// c05Matrix: all vectors for arity ≤ 2, a pairwise-covering array for arity 3–8, over the shapes `idx`
+func c05Matrix(r *rand.Rand, idx []int) (small, big []string) {
+	v := len(idx)
+	pick := func(row []int) []int {
+		out := make([]int, len(row))
+		for k, x := range row {
+			out[k] = idx[x]
+		}
+		return out
+	}
 	for _, p := range c05Procs() {
 		if c05Excluded(p) {
 			continue
@@ -207,27 +248,56 @@ func genC05Matrix(r *rand.Rand, n int, tier string) []string {
 			small = append(small, c05Case(p, nil))
 		case p.arity == 1:
 			for a := 0; a < v; a++ {
-				small = append(small, c05Case(p, []int{a}))
+				small = append(small, c05Case(p, pick([]int{a})))
 			}
 		case p.arity == 2:
 			for a := 0; a < v; a++ {
 				for b := 0; b < v; b++ {
-					big = append(big, c05Case(p, []int{a, b}))
+					big = append(big, c05Case(p, pick([]int{a, b})))
 				}
 			}
 		default:
 			for _, row := range pairwise(r, p.arity, v) {
-				big = append(big, c05Case(p, row))
+				big = append(big, c05Case(p, pick(row)))
 			}
 		}
 	}
+	return small, big
+}
+
+func genC05Matrix(r *rand.Rand, n int, tier string) []string {
+	all := make([]int, len(c05Shapes))
+	for k := range all {
+		all[k] = k
+	}
+	out := []string{"procs"}
+	small, big := c05Matrix(r, all)
 	out = append(out, small...)
 	if tier == "thorough" || n <= 0 || n >= len(big) {
 		return append(out, big...)
 	}
-	// quick: all vectors of arity ≤ 1 and a uniform sample (without replacement) of the rest
+	// quick: arity ≤ 1 over all shapes; the complete matrix over the core shapes; a uniform sample of the rest
+	var core []int
+	for _, name := range c05Core {
+		core = append(core, c05ShapeIdx[name])
+	}
+	_, coreBig := c05Matrix(r, core)
+	seen := map[string]bool{}
+	for _, c := range coreBig {
+		seen[c] = true
+	}
+	out = append(out, coreBig...)
 	r.Shuffle(len(big), func(a, b int) { big[a], big[b] = big[b], big[a] })
-	return append(out, big[:n]...)
+	for _, c := range big {
+		if n <= 0 {
+			break
+		}
+		if !seen[c] {
+			out = append(out, c)
+			n--
+		}
+	}
+	return out
 }
 
 // ---------------------------------------------------------------------------
